@@ -1,4 +1,4 @@
-"""Load sidecar contract files into an Engine."""
+"""Load sidecar contract files into an Engine (dependencies first, each file once)."""
 import importlib.util
 import hashlib
 import os
@@ -11,18 +11,28 @@ def load_contracts(E, names=None, directory=None):
     directory = directory or os.path.join(VERIF, "contracts")
     if VERIF not in sys.path:
         sys.path.insert(0, VERIF)
-    files = sorted(f for f in os.listdir(directory) if f.endswith(".py") and not f.startswith("_"))
-    order = getattr(E, "load_order", None)
-    for fn in files:
-        if names is not None and fn[:-3] not in names:
-            continue
-        path = os.path.join(directory, fn)
-        spec = importlib.util.spec_from_file_location("vcontracts_" + fn[:-3], path)
+    if names is None:
+        names = sorted(f[:-3] for f in os.listdir(directory) if f.endswith(".py") and not f.startswith("_"))
+    loaded = getattr(E, "_loaded_files", None)
+    if loaded is None:
+        loaded = E._loaded_files = []
+
+    def load(name):
+        if name in loaded:
+            return
+        path = os.path.join(directory, name + ".py")
+        spec = importlib.util.spec_from_file_location("vcontracts_" + name, path)
         mod = importlib.util.module_from_spec(spec)
         spec.loader.exec_module(mod)
+        for dep in getattr(mod, "REQUIRES", []):
+            load(dep)
+        loaded.append(name)
         before = set(E.registry.contracts)
         mod.setup(E)
         for t in set(E.registry.contracts) - before:
-            E.registry.contracts[t].file = fn
-        E.registry.files.append((fn, hashlib.sha256(open(path, "rb").read()).hexdigest()[:16]))
+            E.registry.contracts[t].file = name + ".py"
+        E.registry.files.append((name + ".py", hashlib.sha256(open(path, "rb").read()).hexdigest()[:16]))
+
+    for n in names:
+        load(n)
     return E
